@@ -35,7 +35,17 @@ def las_canon(las):
     c["index_initial"] = None if ii is None else C.cdata(ii)
     c["transforms"] = {k: bool(v.mnemonic_transforms) for k, v in las.sections.items() if not isinstance(v, str)}
     c["types"] = {k: type(v).__name__ for k, v in las.sections.items()}
+    c["dtypes"] = dtypes_of(las.curves)
     return c
+
+
+def dtypes_of(items):
+    """Exact numpy dtypes (item size included) of the arrays carried by a sequence of items."""
+    out = []
+    for it in list.__iter__(items):
+        d = getattr(it, "data", None)
+        out.append(None if d is None else np.asarray(d).dtype.str)
+    return out
 
 
 def write_text(las, kw):
@@ -236,8 +246,8 @@ class C17(Prop):
                 self.rebind(cm, sms, cp2)
                 res.count("restarts")
         elif tgt.startswith("sec:"):
-            a = [C.csection(obj, strict=True, data=True), bool(obj.mnemonic_transforms)]
-            b = [C.csection(cp, strict=True, data=True), bool(getattr(cp, "mnemonic_transforms", None))]
+            a = [C.csection(obj, strict=True, data=True), bool(obj.mnemonic_transforms), dtypes_of(obj)]
+            b = [C.csection(cp, strict=True, data=True), bool(getattr(cp, "mnemonic_transforms", None)), dtypes_of(cp)]
             interesting = any(it.mnemonic != it.original_mnemonic for it in obj)
             if a != b:
                 res.violate("C17.equal", "step %d: %s of section %s differs: %s" % (step, how, tgt, "; ".join(C.diff(a, b))), step)
@@ -269,6 +279,7 @@ class C17(Prop):
             if hasattr(obj, "data") and obj.data is not None:
                 a["data"] = C.cdata(obj.data)
                 b["data"] = C.cdata(cp.data) if getattr(cp, "data", None) is not None else None
+                a["dtype"], b["dtype"] = dtypes_of([obj]), dtypes_of([cp])
             interesting = obj.mnemonic != obj.original_mnemonic
             if a != b:
                 res.violate("C17.equal", "step %d: %s of item %s differs: %s" % (step, how, tgt, "; ".join(C.diff(a, b))), step)
